@@ -409,6 +409,11 @@ impl PacketReceiver {
     // comes first. Any incomplete or dropped packets are skipped, and as a result, the sender must
     // ensure that all reliable packets have been received in full prior to issuing the request.
     pub fn resynchronize(&mut self, sender_next_id: u32) {
+        if !packet_id::is_valid(sender_next_id) {
+            // Not a packet ID: ignore the request
+            return;
+        }
+
         debug_assert!(packet_id::is_valid(sender_next_id));
 
         let base_id = self.base_id;
